@@ -180,3 +180,174 @@ Section Loop.
     destruct H as [t [Ht Hin]]. exists t. split; assumption.
   Qed.
 End Loop.
+
+Section LoopSpec.
+  Variables (phi : ref -> ref) (psi : ref -> option N).
+  Let F := cpf phi (cprops psi phi).
+
+  Definition loop_post (D D' : dom) (q : list (ref * tree)) (rw0 rw' : map ref) : Prop :=
+    (forall y i, In (y, i) (qents phi psi q) -> lookup y (d_insts D') = Some i) /\
+    (forall y, ~ In y (keys (qents phi psi q)) ->
+               lookup y (d_insts D') = option_map (addkids phi y q) (lookup y (d_insts D))) /\
+    (forall u, mem u (d_uids D') = mem u (d_uids D) || mem u (fuids (List.map (tmap F) (List.map snd q)))) /\
+    d_root D' = d_root D /\
+    (NoDup (keys (d_insts D)) -> NoDup (keys (d_insts D'))) /\
+    (forall t, In t (bfs_all (List.map snd q)) -> lookup (troot t) rw' = Some (phi (troot t))) /\
+    (forall o, ~ In o (List.map troot (bfs_all (List.map snd q))) -> lookup o rw' = lookup o rw0) /\
+    (NoDup (keys rw0) -> NoDup (keys rw')).
+
+  Lemma loop_base D rw0 : loop_post D D [] rw0 rw0.
+  Proof.
+    unfold loop_post. repeat split; try tauto.
+    - intros y i [].
+    - intros y _. destruct (lookup y (d_insts D)) as [i|]; [|reflexivity]. cbn [option_map].
+      now rewrite (proj2 (addkids_nil phi y i)).
+    - intros u. cbn. now rewrite orb_false_r.
+    - intros t [].
+  Qed.
+
+  Lemma clone_loop_spec : forall fuel src D rw0 nu nr nr0 q nu',
+    (fsize (List.map snd q) <= fuel)%nat ->
+    numbered phi nr (bfs_all (List.map snd q)) ->
+    Plan psi (d_uids D) nu nr (bfs_all (List.map snd q)) nu' ->
+    (forall t, In t (List.map snd q) -> Readable (d_insts (srcof src D)) t) ->
+    nr0 <= nr ->
+    (forall x, In x (frefs (List.map snd q)) -> x < nr0) ->
+    (forall cp t, In (cp, t) q ->
+       cp = rnone \/ (nr0 <= cp < nr /\ exists pi, lookup cp (d_insts D) = Some pi)) ->
+    lookup rnone (d_insts D) = None ->
+    exists D' rw',
+      clone_loop fuel src D (mkCtx (cq q) rw0) nu nr
+      = Ok (D', mkCtx [] rw', nu', nr + N.of_nat (fsize (List.map snd q))) /\
+      loop_post D D' q rw0 rw'.
+  Proof.
+    induction fuel as [|f IH]; intros src D rw0 nu nr nr0 q nu' Hfuel Hnum HP Hread Hnr0 Hold Hcps Hnone.
+    - destruct q as [|[cp t] q'].
+      + cbn in HP. subst nu'. exists D, rw0. split; [|apply loop_base].
+        cbn. now rewrite N.add_0_r.
+      + exfalso. cbn [List.map snd] in Hfuel. rewrite fsize_cons in Hfuel. pose proof (tsize_pos t). lia.
+    - destruct q as [|[cp t] q'].
+      + cbn in HP. subst nu'. exists D, rw0. split; [|apply loop_base].
+        cbn. now rewrite N.add_0_r.
+      + destruct t as [r n c ps kids].
+        set (t := Node r n c ps kids) in *.
+        set (q1 := q' ++ List.map (pair nr) kids).
+        assert (Hsnd : List.map snd q1 = List.map snd q' ++ kids).
+        { unfold q1. rewrite map_app, map_snd_pairs. reflexivity. }
+        assert (HL : bfs_all (List.map snd ((cp, t) :: q')) = t :: bfs_all (List.map snd q1)).
+        { cbn [List.map snd]. rewrite bfs_all_cons, Hsnd. reflexivity. }
+        rewrite HL in Hnum, HP. destruct Hnum as [Hphi Hnum']. cbn [troot t] in Hphi.
+        destruct (Readable_root _ _ (Hread t (or_introl eq_refl))) as [i' [Hl [Hc [Hn [Hcl Hps]]]]].
+        cbn [tinst t i_children i_name i_class i_props troot] in Hl, Hc, Hn, Hcl, Hps.
+        assert (Hr0 : r < nr0).
+        { apply Hold. cbn [List.map snd]. rewrite frefs_cons. apply in_or_app. left. exact (troot_in_trefs t). }
+        assert (Hcp : cp = rnone \/ (cp <> nr /\ exists pi, lookup cp (d_insts D) = Some pi)).
+        { destruct (Hcps cp t (or_introl eq_refl)) as [H|[H1 H2]]; [left; exact H|right].
+          split; [lia|exact H2]. }
+        destruct (insert_spec D nu cp nr n c ps Hcp)
+          as [D1 [nu1 [ps1 [Hins [Huid [Hlnr [Hly [Hroot1 Hnd1]]]]]]]].
+        destruct (step_uid psi phi r n c ps kids _ _ _ _ _ _ _ ps1 Hphi HP Huid) as [Hps1 [HP1 Hmem1]].
+        assert (Hfs : fsize (List.map snd ((cp, t) :: q')) = S (fsize (List.map snd q1))).
+        { rewrite Hsnd. cbn [List.map snd]. rewrite fsize_step. reflexivity. }
+        assert (Hold1 : forall x, In x (frefs (List.map snd q1)) -> x < nr0).
+        { intros x Hx. apply Hold. cbn [List.map snd].
+          apply (Permutation_in x (Permutation_sym (frefs_step t (List.map snd q')))).
+          right. rewrite Hsnd in Hx. exact Hx. }
+        assert (Hframe : forall x, x < nr0 -> x <> rnone -> lookup x (d_insts D1) = lookup x (d_insts D)).
+        { intros x Hx Hx0. rewrite Hly by lia.
+          destruct (negb (N.eqb cp rnone) && N.eqb x cp) eqn:E; [|reflexivity].
+          apply andb_true_iff in E. destruct E as [E1 E2]. apply N.eqb_eq in E2. subst x.
+          destruct (Hcps cp t (or_introl eq_refl)) as [H|[H1 H2]]; [contradiction|lia]. }
+        destruct (IH src D1 (upd r nr rw0) nu1 (nr + 1) nr0 q1 nu') as [D' [rw' [Hloop Hpost]]].
+        { rewrite Hfs in Hfuel. lia. }
+        { exact Hnum'. }
+        { exact HP1. }
+        { intros t' Ht'. rewrite Hsnd in Ht'.
+          assert (Hrd : Readable (d_insts (srcof src D)) t').
+          { apply in_app_or in Ht'. destruct Ht' as [Ht'|Ht'].
+            - apply Hread. right. exact Ht'.
+            - apply (Readable_kid _ t); [apply Hread; left; reflexivity|exact Ht']. }
+          destruct src as [s|]; [exact Hrd|]. cbn [srcof] in *.
+          apply (Readable_ext (d_insts D)); [|exact Hrd].
+          intros x Hx. assert (Hx1 : x < nr0).
+          { apply Hold1. rewrite Hsnd. apply In_frefs. exists t'. split; assumption. }
+          destruct (N.eq_dec x rnone) as [E|E]; [|apply Hframe; assumption].
+          subst x. rewrite Hly by (unfold rnone; lia). rewrite Hnone.
+          destruct (negb (N.eqb cp rnone) && N.eqb rnone cp); reflexivity. }
+        { lia. }
+        { exact Hold1. }
+        { intros cp' t' Hin. unfold q1 in Hin. apply in_app_or in Hin. destruct Hin as [Hin|Hin].
+          - destruct (Hcps cp' t' (or_intror Hin)) as [H|[H1 [pi Hpi]]]; [left; exact H|right].
+            split; [lia|]. rewrite Hly by lia.
+            destruct (negb (N.eqb cp rnone) && N.eqb cp' cp); rewrite Hpi; cbn; eauto.
+          - apply in_map_iff in Hin. destruct Hin as [k [Hk _]]. inversion Hk; subst cp' t'.
+            right. split; [lia|]. eauto. }
+        { rewrite Hly by (unfold rnone; lia). rewrite Hnone. destruct (negb (N.eqb cp rnone) && N.eqb rnone cp); reflexivity. }
+        exists D', rw'. split.
+        { assert (Hcq : cq ((cp, t) :: q') = (cp, r) :: cq q') by reflexivity.
+          assert (Hcq1 : cq q' ++ List.map (fun ch => (nr, ch)) (List.map troot kids) = cq q1).
+          { unfold cq, q1. rewrite map_app, !map_map. reflexivity. }
+          rewrite Hcq, clone_loop_cons, (crb_spec _ _ _ _ _ _ Hl), <- Hc, <- Hn, <- Hcl, <- Hps, Hins.
+          cbn [rbind]. rewrite Hcq1, Hfs.
+          replace (nr + N.of_nat (S (fsize (List.map snd q1)))) with (nr + 1 + N.of_nat (fsize (List.map snd q1))) by lia.
+          exact Hloop. }
+        destruct Hpost as [HA [HB [HC [HR [HN [HF1 [HF2 HG]]]]]]].
+        set (KE := flat_map (tflat nr) (List.map (tmap F) kids)).
+        assert (Hfresh : ~ In nr (keys (qents phi psi q1))).
+        { intros H. apply keys_qents in H. destruct H as [x [Hx Hy]].
+          apply In_frefs_bfs in Hx. destruct Hx as [t' [Ht' Hx]]. subst x.
+          pose proof (numbered_range _ _ _ _ Hnum' Ht'). lia. }
+        assert (Hents : qents phi psi ((cp, t) :: q')
+                        = (nr, mkInst cp (List.map phi (List.map troot kids)) n c ps1) :: KE ++ qents phi psi q').
+        { unfold qents at 1. cbn [flat_map fst snd]. unfold t. rewrite tmap_cpf, tflat_eq, roots_tmap, Hphi, <- Hps1.
+          reflexivity. }
+        assert (Hents1 : qents phi psi q1 = qents phi psi q' ++ KE).
+        { unfold q1. rewrite qents_app, qents_pairs. reflexivity. }
+        assert (Hq'nr : forall ct, In ct q' -> fst ct <> nr).
+        { intros [cp' t'] Hin. cbn [fst]. destruct (Hcps cp' t' (or_intror Hin)) as [H|[H1 _]]; [|lia].
+          subst cp'. unfold rnone. lia. }
+        unfold loop_post. split; [|split; [|split; [|split; [|split; [|split; [|split]]]]]].
+        * intros y i Hin. rewrite Hents in Hin. destruct Hin as [Hin|Hin].
+          -- inversion Hin; subst y i. rewrite (HB nr Hfresh), Hlnr. cbn [option_map].
+             unfold addkids, set_children. cbn [i_children i_parent i_name i_class i_props app].
+             unfold q1. rewrite qkids_app, (qkids_none phi nr q' Hq'nr), qkids_pairs. reflexivity.
+          -- apply HA. rewrite Hents1. apply in_app_or in Hin. apply in_or_app. tauto.
+        * intros y Hy.
+          assert (Hy_nr : y <> nr).
+          { intros ->. apply Hy. rewrite Hents. left. reflexivity. }
+          assert (Hy1 : ~ In y (keys (qents phi psi q1))).
+          { intros H. apply Hy. rewrite Hents. rewrite Hents1 in H. unfold keys in *. cbn [List.map fst].
+            right. rewrite map_app in *. apply in_app_or in H. apply in_or_app. tauto. }
+          rewrite (HB y Hy1), (Hly y Hy_nr).
+          assert (Hk1 : qkids phi y q1 = qkids phi y q').
+          { unfold q1. rewrite qkids_app, (qkids_none phi y (List.map (pair nr) kids)); [apply app_nil_r|].
+            intros ct Hct. apply in_map_iff in Hct. destruct Hct as [k [<- _]]. cbn [fst]. congruence. }
+          assert (Hk : qkids phi y ((cp, t) :: q') = if N.eqb cp y then nr :: qkids phi y q' else qkids phi y q').
+          { unfold qkids. cbn [filter fst]. destruct (N.eqb cp y); [|reflexivity].
+            cbn [List.map snd troot t]. rewrite Hphi. reflexivity. }
+          unfold addkids. rewrite Hk1, Hk.
+          destruct (N.eqb y cp) eqn:Ey.
+          -- apply N.eqb_eq in Ey. subst y. rewrite N.eqb_refl.
+             destruct (N.eqb cp rnone) eqn:E0; cbn [negb andb].
+             ++ apply N.eqb_eq in E0. subst cp. rewrite Hnone. reflexivity.
+             ++ destruct (lookup cp (d_insts D)) as [pi|]; [|reflexivity]. cbn [option_map].
+                unfold pushk, set_children. cbn [i_children i_parent i_name i_class i_props].
+                rewrite <- app_assoc. reflexivity.
+          -- rewrite andb_false_r. rewrite N.eqb_sym in Ey. rewrite Ey. reflexivity.
+        * intros u. rewrite (HC u), (Hmem1 u), Hsnd. cbn [List.map snd]. rewrite map_app, fuids_app.
+          unfold fuids at 3. cbn [flat_map]. fold (fuids (List.map (tmap F) (List.map snd q'))).
+          unfold t at 1. unfold F at 3. rewrite tmap_cpf, tuids_eq, <- Hps1. fold F.
+          rewrite !mem_app.
+          repeat match goal with |- context [mem ?a ?b] => destruct (mem a b) end; reflexivity.
+        * rewrite HR. exact Hroot1.
+        * intros H. apply HN, Hnd1, H.
+        * intros t' Ht'. rewrite HL in Ht'. destruct Ht' as [<-|Ht']; [|apply HF1; exact Ht'].
+          cbn [troot t].
+          destruct (in_dec N.eq_dec r (List.map troot (bfs_all (List.map snd q1)))) as [Hin|Hnin].
+          -- apply in_map_iff in Hin. destruct Hin as [t2 [E2 Hin2]]. rewrite <- E2. apply HF1. exact Hin2.
+          -- rewrite (HF2 r Hnin), lookup_upd_eq, Hphi. reflexivity.
+        * intros o Ho. rewrite HL in Ho. cbn [List.map In troot t] in Ho. rewrite HF2 by tauto.
+          apply lookup_upd_neq. intros ->. apply Ho. left. reflexivity.
+        * intros H. apply HG, NoDup_keys_upd, H.
+  Qed.
+End LoopSpec.
